@@ -105,6 +105,11 @@ func Param(name string) int {
 // Concrete forces a case split over the feasible values of v (identity natively).
 func Concrete(v uint64) uint64 { return v }
 
+// Tabulate returns v. Under the engine the term is rewritten into an exact lookup table over the
+// input bits it depends on when these are few (<= 9 bits); this keeps multiplications/divisions of
+// small quantities away from the bit-blaster.
+func Tabulate(v uint64) uint64 { return v }
+
 func Assume(cond bool) {
 	if !cond {
 		panic(skipT{})
